@@ -4,7 +4,7 @@
    The program (callbacks, how the block ends, where cancellation strikes) is built by a generation stage and then frozen.
    Every step feeds the events it produces to the C01 monitor (P_C01), so TLC checks that the design satisfies C01.
 
-   callback = [kind: "ok" | "exc" | "base",  async, pass (pass_exception), route: "direct" | "resource" | "resource2" | "ctxtd",
+   callback = [kind: "ok" | "exc" | "base" | "reraise",  async, pass (pass_exception), route: "direct" | "resource" | "resource2" | "ctxtd",
                during: registers one more (sync, ok, pass) callback while it runs]                                           *)
 EXTENDS Naturals, Sequences, FiniteSets, TLC, SequencesExt
 CONSTANTS MaxCbs, Kinds, Routes, Durings
@@ -12,8 +12,11 @@ M == INSTANCE P_C01
 VARIABLES prog, stage, stack, running, cancelled, raised, anyCancel, nextId, outcome, mon
 vars == <<prog, stage, stack, running, cancelled, raised, anyCancel, nextId, outcome, mon>>
 Cb(kind, as, pass, route, during) == [kind |-> kind, async |-> as, pass |-> pass, route |-> route, during |-> during]
+\* kind "reraise": a pass_exception callback that raises the very exception object it was handed (nothing when handed None);
+\* one representative shape: sync, registered directly
 Valid(c) == /\ (c.route \in {"resource", "resource2"} => ~c.pass)
             /\ (c.route = "ctxtd" => c.async /\ c.pass)
+            /\ (c.kind = "reraise" => c.pass /\ ~c.async /\ c.route = "direct" /\ ~c.during)
 Init == /\ prog = [cbs |-> <<>>, ending |-> "return", root |-> TRUE, ambient |-> FALSE, cancelDuring |-> 0]
         /\ stage = "gen" /\ stack = <<>> /\ running = 0 /\ cancelled = FALSE /\ raised = {} /\ anyCancel = FALSE
         /\ nextId = 1 /\ outcome = "" /\ mon = M!MonInit
@@ -61,11 +64,13 @@ Finish == /\ stage = "closing" /\ running # 0 /\ (running = prog.cancelDuring =>
                  c == CbOf(i)
                  cut == c.async /\ cancelled
                  regNew == c.during /\ ~cut
-                 exc == IF cut THEN "cancel" ELSE IF c.kind = "ok" THEN "none" ELSE "cb" \o ToString(i)
+                 exc == IF cut THEN "cancel" ELSE IF c.kind = "ok" THEN "none"
+                        ELSE IF c.kind = "reraise" THEN (IF prog.ending \in {"exc", "base"} THEN "blk" ELSE "none")
+                        ELSE "cb" \o ToString(i)
                  m1 == IF regNew THEN M!MonNext(mon, [ev |-> "reg", cb |-> nextId, pass |-> TRUE]) ELSE mon IN
              /\ stack' = IF regNew THEN Append(stack, nextId) ELSE stack
              /\ nextId' = IF regNew THEN nextId + 1 ELSE nextId
-             /\ raised' = IF ~cut /\ c.kind # "ok" THEN raised \cup {exc} ELSE raised
+             /\ raised' = IF ~cut /\ exc # "none" THEN raised \cup {exc} ELSE raised
              /\ anyCancel' = (anyCancel \/ cut)
              /\ mon' = M!MonNext(m1, [ev |-> "cb.end", cb |-> i, raised |-> (exc # "none"), exc |-> exc, cancel |-> cut])
           /\ running' = 0
